@@ -363,4 +363,63 @@ example : queryInt64 (parseQuery [107, 61, 45, 52, 50]) [107] (some 7) = -42 := 
 example : decimal [45, 52, 50] = some (-42) := by decide
 example : decimal [52, 50, 120] = none ∧ ¬ digitRunOverflows [52, 50, 120] := by decide
 
+/-! ### `RemoteAddr()`: total ("reading request data never panics": the slice `addr[:i]` is always in range),
+    header first, port cut at the LAST colon only -/
+
+theorem lastColon_lt (s : Bytes) (i : Nat) (h : lastColon s = some i) : i < s.length := by
+  induction s generalizing i with
+  | nil => simp [lastColon] at h
+  | cons c cs ih =>
+    simp only [lastColon] at h
+    cases hc : lastColon cs with
+    | some j => rw [hc] at h; simp at h; subst h; simpa using ih j hc
+    | none =>
+      rw [hc] at h
+      by_cases h58 : c = 58
+      · simp [h58] at h; subst h; simp
+      · simp [h58] at h
+
+/-- the Go slice expression `addr[:i]` of `RemoteAddr()` is always within bounds: no panic for any header values and
+    any `Request.RemoteAddr` (empty, without a colon, only colons, IPv6 literals, arbitrary bytes) -/
+theorem remoteAddr_slice_in_range (raddr : Bytes) (i : Nat) (h : lastColon raddr = some i) : i ≤ raddr.length :=
+  Nat.le_of_lt (lastColon_lt raddr i h)
+
+/-- a non-empty `X-Real-IP` wins, then a non-empty `X-Forwarded-For`; both are returned unchanged -/
+theorem remoteAddr_headers_first (x f r : Bytes) :
+    (x ≠ [] → remoteAddr x f r = x) ∧ (x = [] → f ≠ [] → remoteAddr x f r = f) := by
+  refine ⟨fun h => by simp [remoteAddr, h], fun hx hf => by simp [remoteAddr, hx, hf]⟩
+
+/-- without those headers: `host:port` gives `host` when the port holds no colon — the cut is at the LAST colon,
+    so the colons of an IPv6 host stay — and an address without any colon is returned whole -/
+theorem remoteAddr_strips_port (host port : Bytes) (hp : (58 : UInt8) ∉ port) :
+    remoteAddr [] [] (host ++ 58 :: port) = host := by
+  have key : ∀ (h : Bytes), lastColon (h ++ 58 :: port) = some h.length := by
+    intro h
+    induction h with
+    | nil =>
+      have : lastColon port = none := by
+        induction port with
+        | nil => rfl
+        | cons c cs ih =>
+          have hc : c ≠ 58 := fun e => hp (by simp [e])
+          have := ih (fun m => hp (by simp [m]))
+          simp [lastColon, this, hc]
+      simp [lastColon, this]
+    | cons c cs ih => simp [lastColon, ih]
+  simp [remoteAddr, key]
+
+theorem remoteAddr_no_colon (r : Bytes) (h : (58 : UInt8) ∉ r) : remoteAddr [] [] r = r := by
+  have : lastColon r = none := by
+    induction r with
+    | nil => rfl
+    | cons c cs ih =>
+      have hc : c ≠ 58 := fun e => h (by simp [e])
+      simp [lastColon, ih (fun m => h (by simp [m])), hc]
+  simp [remoteAddr, this]
+
+-- "[::1]:2830" → "[::1]";  X-Forwarded-For "10.0.0.1" wins over "1.2.3.4:5";  ":" → "";  "" → ""
+example : remoteAddr [] [] [91, 58, 58, 49, 93, 58, 50, 56, 51, 48] = [91, 58, 58, 49, 93] ∧
+    remoteAddr [] [49, 48, 46, 48, 46, 48, 46, 49] [49, 46, 50, 46, 51, 46, 52, 58, 53] = [49, 48, 46, 48, 46, 48, 46, 49]
+    ∧ remoteAddr [] [] [58] = [] ∧ remoteAddr [] [] [] = [] := by decide
+
 end Flamego.Access
